@@ -169,6 +169,8 @@ class Normalizer:
         return ("tuple", tuple(self.norm(x) for x in e.elts))
 
     def n_List(self, e, b):
+        if len(e.elts) >= 2 and all(isinstance(x, ast.Starred) for x in e.elts):
+            return ("concat", tuple(self.norm(x.value) for x in e.elts))      # [*a, *b] == a + b
         return ("list", tuple(self.norm(x) for x in e.elts))
 
     def n_Set(self, e, b):
@@ -457,8 +459,41 @@ class Normalizer:
             return None
         return ".".join([name] + list(reversed(parts)))
 
+    def _format_call_as_fstring(self, e: ast.Call) -> Optional[Term]:
+        """"lit {} lit {:.1f}".format(a, b)  is read as the f-string it abbreviates"""
+        f = e.func
+        if not (isinstance(f, ast.Attribute) and f.attr == "format" and isinstance(f.value, ast.Constant)
+                and isinstance(f.value.value, str)) or e.keywords or any(isinstance(a, ast.Starred) for a in e.args):
+            return None
+        import string
+        parts = []
+        auto = 0
+        try:
+            fields = list(string.Formatter().parse(f.value.value))
+        except ValueError:
+            return None
+        for lit, field, spec, conv in fields:
+            if lit:
+                parts.append(C(lit))
+            if field is None:
+                continue
+            if field == "":
+                idx = auto
+                auto += 1
+            elif field.isdigit():
+                idx = int(field)
+            else:
+                return None
+            if idx >= len(e.args) or (spec and "{" in spec):
+                return None
+            parts.append(("fmt", self.norm(e.args[idx]), ord(conv) if conv else -1, spec or ""))
+        return ("fstr", tuple(parts))
+
     def n_Call(self, e: ast.Call, b):
         f = e.func
+        fs = self._format_call_as_fstring(e)
+        if fs is not None:
+            return fs
         # super().m(...)
         callees = self.ctx.cg.resolve_call(self.fn, e) if not self.scopes_shadow(f) else [Callee("unknown")]
         repo = [c for c in callees if c.kind in ("fn", "ctor")]
@@ -484,7 +519,7 @@ class Normalizer:
             elif len(repo) == 1 and self.level < 12 and is_new_helper(c.fn) and c.fn is not self.fn:
                 # a helper that did not exist on the pinned tree: read the call through its body
                 saved = self.inline
-                self.inline = max(self.inline, 1)
+                self.inline = saved + 1        # reading through a new helper does not use up the caller's inlining budget
                 try:
                     r = self._inline_call(c.fn, params, e, recv)
                 finally:
